@@ -3,7 +3,7 @@
    fix of _build/c13/fix_D13.patch).  Specification: OptSpec.doc_ok / doc_effective
    (transcription of the comments of reproc.h).  Proofs: OptProofs.v, OptProofsStart.v.
    Each theorem is followed by Print Assumptions and by an Example showing it is not vacuous. *)
-From Verif Require Import LibPure OptSpec OptProofs Lib OptProofsStart.
+From Verif Require Import Base World Sys LibPure OptSpec OptProofs Lib OptProofsStart RunOpts.
 From Coq Require Import Lia.
 Local Open Scope Z_scope.
 
@@ -159,3 +159,47 @@ Proof. exact redirect_init_out_of_range. Qed.
 Print Assumptions C13_out_of_range_start.
 Example C13_out_of_range_start_ex : ~ type_in_range (rd_type (only_type 8)).
 Proof. cbv -[Z.le]; lia. Qed.
+
+(** ** 4. The same options arriving through reproc_run / reproc_run_ex (run.c) *)
+
+(* reproc_run only ever ADDS the parent shorthand (when discard, file and path are all unset); it
+   never clears or overrides a setting of the caller: whatever parse_options rejects in the caller's
+   options it also rejects in the options run hands to start. *)
+Theorem C13_run_keeps_conflicts : forall o argv,
+  parse_options o argv = None -> parse_options (run_options o) argv = None.
+Proof. exact run_options_keeps_conflicts. Qed.
+Print Assumptions C13_run_keeps_conflicts.
+
+(* ... and the whole call is then: allocate the handle, release it, answer EINVAL -- no pipe, no
+   file, no process, whatever the world (in fork mode, which run refuses, not even that). *)
+Theorem C13_run_rejects_conflicts : forall fuel argv o src w,
+  parse_options o (argv_form_of argv) = None ->
+  reproc_run fuel argv o src w =
+  (if o_fork o then ret REPROC_EINVAL else
+   let* b := sys_malloc SIZEOF_REPROC_T in
+   if b =? 0 then ret REPROC_ENOMEM else sys_free b ;> ret REPROC_EINVAL) w.
+Proof. exact run_conflict_is_alloc_free. Qed.
+Print Assumptions C13_run_rejects_conflicts.
+
+Theorem C13_run_ex_rejects_conflicts : forall fuel argv o src s w,
+  parse_options o (argv_form_of argv) = None ->
+  reproc_run_ex fuel argv o src s w =
+  (if o_fork o then ret (REPROC_EINVAL, s) else
+   let* b := sys_malloc SIZEOF_REPROC_T in
+   if b =? 0 then ret (REPROC_ENOMEM, s) else sys_free b ;> ret (REPROC_EINVAL, s)) w.
+Proof. exact run_ex_conflict_is_alloc_free. Qed.
+Print Assumptions C13_run_ex_rejects_conflicts.
+
+(* not vacuous: parent + discard with every stream left alone is a conflict, run leaves both
+   shorthands as they are; and on the all-default options run does add the parent shorthand *)
+Definition ex_parent_discard : options :=
+  {| o_wd := None; o_env_behavior := 0; o_env_extra := None;
+     o_in := redirect_zero; o_out := redirect_zero; o_err := redirect_zero;
+     o_parent := true; o_discard := true; o_file := 0; o_path := None;
+     o_stop := o_stop options_zero; o_deadline := 0;
+     o_input_data := false; o_input_size := 0; o_fork := false; o_nonblocking := false |}.
+Example C13_run_ex_conflict :
+  parse_options ex_parent_discard (argv_form_of (Some [[99]])) = None /\
+  run_options ex_parent_discard = ex_parent_discard /\
+  o_parent options_zero = false /\ o_parent (run_options options_zero) = true.
+Proof. repeat split; reflexivity. Qed.
